@@ -13,13 +13,9 @@ echo "== baseline on patched worktree"; VERIF_REPO=$W /verif/bin/baseline_off.sh
 git -C /repo worktree remove --force $W
 echo "demo_repo=$D0 demo_patched=$D1 baseline=$B"
 cp $S/patch.diff $S/demo.py $OUT/ 2>/dev/null; cp $S/notes.md $OUT/notes.md 2>/dev/null
-RES=""
-git -C /repo apply $S/patch.diff || exit 3
-for CK in "$@"; do
-  echo "== check $CK on patched /repo"
-  /verif/bin/verif check $CK --tier quick > $OUT/check_$CK.out 2>&1; RC=$?
-  tail -1 $OUT/check_$CK.out; echo "rc=$RC viol=$(grep -c '^VIOLATION' $OUT/check_$CK.out)"
-  RES="$RES $CK:rc=$RC"
-done
-git -C /repo checkout -- . ; git -C /repo status --short
+# checks run against a scratch worktree with the patch and a scratch copy of /verif: /repo is never modified
+/verif/bin/variant_try.sh $OUT/patch.diff $OUT "$@" | tee $OUT/checks.txt
+RES=$(awk '{printf " %s:%s", $1, $2}' $OUT/checks.txt)
+for CK in "$@"; do [ -f $OUT/variant_$CK.out ] && mv $OUT/variant_$CK.out $OUT/check_$CK.out; done
+rm -f $OUT/variant_result.txt $OUT/checks.txt
 echo "RESULT id=$ID prop=$PROP demo_repo=$D0 demo_patched=$D1 baseline=$B checks:$RES" | tee $OUT/result.txt
